@@ -102,6 +102,9 @@ func c14Menu(c lockCfg, thorough bool) func(w *engb.World, st *engb.LState, dept
 		{Dt: 1, Evidence: []engb.EvSpec{{Val: 1, AgeBlocks: 1, AgeSecs: 1}, {Val: 0, AgeBlocks: 5, AgeSecs: 30}}},
 		{Dt: 1, Evidence: []engb.EvSpec{{Val: 0, AgeBlocks: 5, AgeSecs: 30}, {Val: 0, AgeBlocks: 1, AgeSecs: 1}}},
 	}
+	// the chain is restarted from an exported state in the middle of a signing window / a jail term:
+	// what was counted and decided before the hand-over still counts after it
+	base = append(base, engb.LBlock{Dt: 1, Reimport: true}, engb.LBlock{Dt: 1, Absent: []int{0}, Reimport: true})
 	if thorough {
 		base = append(base,
 			engb.LBlock{Dt: 1, Ops: []engb.LOp{{Kind: "lock", Val: 0, Token: 1, Amt: "49"}}},
